@@ -284,6 +284,17 @@ func (c *Ctx) reqAt(fn *ssa.Function, o Origin, m LitMatch) bool {
 		if l, ok := c.edgeLitTo(o.Pred, o.Succ); ok && m(l) {
 			return true
 		}
+		// follow the selecting edge itself (it may be decided by a named boolean the path has fixed): reach
+		// the first instruction of Succ, entering only from Pred, with the witnessing edges deleted
+		if o.Pred.Parent() == o.Succ.Parent() && len(o.Succ.Instrs) > 0 {
+			pred, succ := o.Pred, o.Succ
+			q := &PathQ{c: c, Fn: fn, CutLit: m, CutEdge: func(b *ssa.BasicBlock, si int) bool {
+				return b.Succs[si] == succ && b != pred
+			}}
+			first := succ.Instrs[0]
+			_, found := q.Reach(entrySite(fn), factUnknown, func(x ssa.Instruction) bool { return x == first })
+			return !found
+		}
 	}
 	at := o.At
 	_, ok := c.Requires(fn, func(x ssa.Instruction) bool { return x == at }, m, nil)
